@@ -23,6 +23,29 @@ CLAIMED = {
                 "Bounded: the listed templates, English (and autodetection for marked templates), fixed-offset zones.",
         "design_ref": "DESIGN.md §3 C01",
     },
+    "C02": {
+        "text": "Totality on templates: the public entry get_date_data is executed on ~23 English template shapes (ISO, "
+                "slash, named month, time-only, digit blocks, epochs, relative phrases, tz suffixes) whose decimal fields "
+                "are UNCONSTRAINED (month 00-99, offsets 0000-9999 ...), with RELATIVE_BASE anywhere in [min, max] (naive or "
+                "aware), fixed-offset TIMEZONE/TO_TIMEZONE, PREFER_* and the clock symbolic; any exception leaving the call "
+                "on a feasible path, a period outside the five values or date_obj/locale disagreeing is a counterexample. "
+                "Settings validation: every documented key with typed candidate values, each tried after a valid value of "
+                "the same key, the date string symbolic; oracle = independent validity table. Arbitrary str <= 100 is "
+                "outside (letters are not symbolic).",
+        "design_ref": "DESIGN.md §3 C02",
+    },
+    "C03": {
+        "text": "One step from an arbitrary shared state: (i) each of the five dictionary-cache accessors is run from every "
+                "ordered cache state of <= 4 settings keys x <= 2 locales satisfying the representation invariant, own key "
+                "absent or at any position, CACHE_SIZE_LIMIT 0..5 (solver-enumerated): no KeyError, own entry returned, "
+                "other entries only evicted; (ii) _try_parser with the absolute parser's outcome an arbitrary exception "
+                "type restores DATE_ORDER on every exit; (iii) settings registry: ordered pairs of settings dicts incl. "
+                "dicts spelling out defaults, with an earlier field mutation: a live instance is untouched by other "
+                "configurations and re-initialised on reuse; (iv) short API histories with symbolic digits (failed parse "
+                "then default order, differing CACHE_SIZE_LIMITs, custom settings then defaults). Whole-API histories "
+                "beyond these, hash seeds and aliasing of caller-owned arguments are outside.",
+        "design_ref": "DESIGN.md §3 C03",
+    },
     "C04": {
         "text": "Public entry get_date_data (English) for 'n U ago' / 'in n U' with every unit incl. decades, 2- and "
                 "3-unit phrases in both orders, now/today/yesterday/tomorrow, last/next week|month|year, phrases with a "
